@@ -244,3 +244,14 @@ package nodes
 //@   loop 1 invariant keys: len(key) == len(keyExprs) && forall(j, 0, $k, evalErr(keyExprs[j], ctx) == nil && same(key[j], evalVal(keyExprs[j], ctx)))
 //@   loop 2 invariant nonnull: 0 <= $k && $k <= len(key) && forall(j, 0, $k, key[j].TypeID != 0)
 //@   ensures nullkey: (forall(j, 0, len(keyExprs), evalErr(keyExprs[j], ctx) == nil)) && (exists(j, 0, len(keyExprs), evalVal(keyExprs[j], ctx).TypeID == 0)) ==> result == nil && len(OUT) == old(len(OUT))
+// The outer joins: a record whose key contains a NULL matches nothing; on an outer side it is an unmatched row — one
+// output record: the row's own columns (copied to its side of the layout), NULL in every column of the other side,
+// the record's own retraction flag and event time; on the other side nothing is produced.
+//@ func (*OuterJoin).receiveRecord
+//@   requires layout: s.leftFieldCount >= 0 && s.rightFieldCount >= 0 && len(record.Values) == ite(amLeft, s.leftFieldCount, s.rightFieldCount)
+//@   loop 1 invariant keys: len(key) == len(keyExprs) && forall(j, 0, $k, evalErr(keyExprs[j], ctx) == nil && same(key[j], evalVal(keyExprs[j], ctx)))
+//@   loop 2 invariant nonnull: 0 <= $k && $k <= len(key) && forall(j, 0, $k, key[j].TypeID != 0)
+//@   ensures nullkey.other: (forall(j, 0, len(keyExprs), evalErr(keyExprs[j], ctx) == nil)) && (exists(j, 0, len(keyExprs), evalVal(keyExprs[j], ctx).TypeID == 0)) && !((s.isOuterLeft && amLeft) || (s.isOuterRight && !amLeft)) ==> result == nil && len(OUT) == old(len(OUT))
+//@   ensures nullkey.outer: (forall(j, 0, len(keyExprs), evalErr(keyExprs[j], ctx) == nil)) && (exists(j, 0, len(keyExprs), evalVal(keyExprs[j], ctx).TypeID == 0)) && ((s.isOuterLeft && amLeft) || (s.isOuterRight && !amLeft)) ==> len(OUT) == old(len(OUT)) + 1 && lastOut().Retraction == record.Retraction && lastOut().EventTime == record.EventTime && len(lastOut().Values) == s.leftFieldCount + s.rightFieldCount
+//@   ensures nullkey.left: (forall(j, 0, len(keyExprs), evalErr(keyExprs[j], ctx) == nil)) && (exists(j, 0, len(keyExprs), evalVal(keyExprs[j], ctx).TypeID == 0)) && s.isOuterLeft && amLeft ==> forall(q, 0, s.leftFieldCount, same(lastOut().Values[q], record.Values[q])) && forall(q, s.leftFieldCount, s.leftFieldCount + s.rightFieldCount, lastOut().Values[q].TypeID == 0)
+//@   ensures nullkey.right: (forall(j, 0, len(keyExprs), evalErr(keyExprs[j], ctx) == nil)) && (exists(j, 0, len(keyExprs), evalVal(keyExprs[j], ctx).TypeID == 0)) && !(s.isOuterLeft && amLeft) && s.isOuterRight && !amLeft ==> forall(q, 0, s.rightFieldCount, same(lastOut().Values[s.leftFieldCount + q], record.Values[q])) && forall(q, 0, s.leftFieldCount, lastOut().Values[q].TypeID == 0)
